@@ -106,6 +106,13 @@ def gen(rng, *, ia: bool = True, time: bool = True, conditionals: bool = True, c
         comps.append({"kind": "derived", "name": "dma", "fn": L(tb.t_modattr), "args": [rng.choice(variables), rng.choice(params)]})
         touched.add(a)
         feats.add("module_state")
+    if not untranslatable and rng.random() < 0.2:
+        # two different functions that share module, name and qualified name (defined under the two branches of a factory)
+        a, b = rng.choice(variables), rng.choice(variables)
+        comps.append({"kind": "reaction", "name": "vq1", "fn": "mon.fnlib.trans_b:RATE_LINEAR", "args": [a, rng.choice(params)], "stoich": {a: -1.0}})
+        comps.append({"kind": "reaction", "name": "vq2", "fn": "mon.fnlib.trans_b:RATE_SATURATING", "args": [b, rng.choice(params)], "stoich": {b: -1.0}})
+        touched |= {a, b}
+        feats.add("functions_sharing_a_qualified_name")
     if len(touched) < nvar:
         feats.add("untouched_variable")
     if nvar == 1:
